@@ -257,6 +257,9 @@ func (s *c15Scenario) handle(hid int, ctx context.Context, v any) error {
 			d.rec("pre", hid, sc[0] == 1, ret)
 		}
 	}
+	if ty2, c2 := ct.Render(v); ty2 != ty || c2 != c {
+		d.anomaly("the value passed to the handler changed while it was being handled (object shared between deliveries)")
+	}
 	switch sc[1] {
 	case 0:
 		return nil
